@@ -20,5 +20,6 @@ ASSUME DimsLaw == \A w \in MDims, h \in MDims : \A m \in BOOLEAN :
                     /\ (m => Chain(w, h, m)[MipCount(w, h, m)] = <<1, 1>>)
                     /\ CodeMipCount(w, h, m) <= MipCount(w, h, m)
                     /\ (CodeMipCount(w, h, m) = MipCount(w, h, m) <=> (~m \/ Log2Floor(w) = Log2Floor(h)))
+ASSUME SaveLawHolds == SaveLaw
 ASSUME QuantLaw == \A a \in 0..255 : QuantOk(4, a, Quant4(a)) /\ QuantOk(8, a, a) /\ QuantOk(1, a, IF a > 0 THEN 255 ELSE 0)
 =============================================================================
